@@ -585,6 +585,49 @@ func c11Lifecycle(x *c11Ctx, trunk string, variant int) {
 	}
 }
 
+// --- scenario G: a connection obtained after the multiplexer has failed or was closed ----------------
+
+func c11OpenAfter(x *c11Ctx, trunk, how string) {
+	a, b, err := trunkPair(trunk)
+	if err != nil {
+		return
+	}
+	ma := multiplex.Multiplex(a)
+	mb := multiplex.Multiplex(b)
+	defer x.guardClose("Mux.Close (A)", ma.Close)
+	defer x.guardClose("Mux.Close (B)", mb.Close)
+	pre, _ := mb.Open(7)
+	rd := startReader("B7 (opened before)", 7, pre, nil)
+	switch how {
+	case "local-close":
+		x.guardClose("Mux.Close (B)", mb.Close)
+	case "remote-close":
+		x.guardClose("Mux.Close (A)", ma.Close)
+	case "trunk-cut":
+		a.Close()
+	}
+	if !x.awaitAll("read-after-close", map[string]chan struct{}{"reader B7": rd.done}) {
+		return
+	}
+	// the multiplexer at B is down now; connections obtained from it afterwards must fail as well
+	for _, id := range []multiplex.ConnID{7, 8} {
+		c, err := mb.Open(id)
+		if err != nil {
+			continue // refusing is fine
+		}
+		x.laterOps(fmt.Sprintf("connection %d opened after %s", id, how), c, 2)
+	}
+	if l, err := mb.Listen(9); err == nil {
+		d := make(chan struct{})
+		var c net.Conn
+		go func() { defer close(d); c, _ = l.Accept() }()
+		if rig.Await(d, c11Nominal, c11Hard) != "hang" && c != nil {
+			x.laterOps("connection accepted after "+how, c, 2)
+		}
+		l.Close()
+	}
+}
+
 func runC11(c *ev.ChildEnv, res *ev.Result) {
 	rig.QuietLogs()
 	g := rand.New(rand.NewPCG(uint64(c.Seed), uint64(c.Batch)+1100))
@@ -689,6 +732,13 @@ func runC11(c *ev.ChildEnv, res *ev.Result) {
 			res.Eval()
 			c11Listener(x, trunk, closers)
 			res.Seen(fmt.Sprintf("listener|%s|%d", trunk, closers))
+		}
+		for _, how := range []string{"local-close", "remote-close", "trunk-cut"} {
+			c.WAL("open-after %s %s", trunk, how)
+			x := &c11Ctx{res: res, what: map[string]any{"scenario": "open-after-failure", "how": how, "trunk": trunk}}
+			res.Eval()
+			c11OpenAfter(x, trunk, how)
+			res.Seen("open-after|" + trunk + "|" + how)
 		}
 		for v := 0; v < 4; v++ {
 			c.WAL("lifecycle %s %d", trunk, v)
